@@ -57,9 +57,12 @@ CLASSES = [
      "props": [{"name": "x", "type": "int", "read": True, "write": True, "notify": None},
                {"name": "t", "type": "QString", "read": True, "write": True, "notify": None}],
      "signals": [], "slots": [], "methods": []},
-    {"name": "VOther", "supers": ["QObject"], "qobject": True, "enums": [],
-     "props": [{"name": "i", "type": "int", "read": True, "write": True, "notify": "iChanged"}],
-     "signals": [("iChanged", [], "void")], "slots": [], "methods": []},
+    # VOther::Mode has the same unqualified name as VObj::Mode: two different types
+    {"name": "VOther", "supers": ["QObject"], "qobject": True,
+     "enums": [{"name": "Mode", "scoped": False, "flag": False, "alias": None, "values": ["XA", "XB"]}],
+     "props": [{"name": "i", "type": "int", "read": True, "write": True, "notify": "iChanged"},
+               {"name": "e", "type": "VOther::Mode", "read": True, "write": True, "notify": "eChanged"}],
+     "signals": [("iChanged", [], "void"), ("eChanged", [], "void")], "slots": [], "methods": []},
 ]
 OBJECTS = [("a", "VObj"), ("b", "VObj"), ("sub", "VSub"), ("oth", "VOther"), ("plain", "QObject")]
 THIS = ("VObj", "root")
